@@ -23,6 +23,8 @@ RULE = ("case = an op sequence run on one real store directory (2 datasets): ass
         "batches with an empty URI, re-stored entities with new reference targets), NewContextualStore, restart (Close+NewStore) and "
         "crash (directory image taken while open) at random positions, writes during which the process dies at a verifhook point "
         "(before the id commit / between id and entity commit / after both; StoreEntities, ExecuteTransaction, contextual store), "
+        "the same URIs compacted through the HttpTransform-with-SupportContext path (real transformEntities against an httptest "
+        "service) and through one HttpDatasetSource read repeatedly against a remote whose context changes between responses, "
         "contexts as requests get them through the real web handlers (GET /namespaces, @context of plain pages of datasets with "
         "and without publicNamespaces, JSON-LD pages), "
         "dumps of both namespace maps, both id indexes and the (identifier, id) pairs carried by stored entity versions and "
@@ -91,6 +93,21 @@ def op_dump(): return {"op": "dump"}
 def op_page(ds, changes=False): return {"op": "page", "ds": ds, "txn": changes}
 def op_jsonld(ds): return {"op": "jsonld", "ds": ds}
 def op_namespaces(): return {"op": "namespaces"}
+def op_tcompact(s): return {"op": "tcompact", "s": s}
+def op_srcpage(s, locs): return {"op": "srcpage", "s": s, "locals": locs}
+
+
+def has_path(u):
+    """the transform service of the driver reports ids with a path as CURIEs in its own context"""
+    i = u.find("://")
+    return i > 0 and "/" in u[i + 3:]
+
+
+SRC_CTX = [{"a": "http://one.example.com/", "_": "http://one.example.com/d/", "h": "http://a.example/x#"},
+           {"a": "http://two.example.com/", "_": "http://two.example.com/d#", "h": "http://a.example/x#"},
+           {"a": "http://a.example/x/", "b": "http://one.example.com/"}]
+SRC_KEYS = ["a:name", "a:x/y", "label", "h:l", "b:name", "h:q/r"]
+HASH_SLASH = "http://example.com/doc#section/1"
 
 
 def mk(ops, pub=None):
@@ -149,6 +166,14 @@ def witness_cases():
             op_batch("a", [ent("ns4:x")]), op_page("p"), op_jsonld("p"), op_page("p"), op_restart(), op_page("p"),
             op_compact("http://pub.example/other/e"), op_page("q"), op_page("p"), op_dump()],
            pub=[("p", ["http://a.example/x/", "http://pub.example/later#"]), ("q", ["http://pub.example/other/"])]),
+        # one identifier, one CURIE, through every entry point: the store's own compaction, an id that comes back from an
+        # HttpTransform with SupportContext (package jobs), keys read by ONE HttpDatasetSource whose remote changes its
+        # context between responses (package jobs/source)
+        mk([op_compact(HASH_SLASH), op_tcompact(HASH_SLASH), op_tcompact("http://h.example/p#q/e1"), op_compact("http://h.example/p#q/e1"),
+            op_tcompact("http://a.example/x#y#z"), op_compact("http://a.example/x#y#z"), op_restart(), op_tcompact(HASH_SLASH),
+            op_srcpage("a:name", SRC_CTX[0]), op_srcpage("a:name", SRC_CTX[1]), op_srcpage("label", SRC_CTX[0]),
+            op_srcpage("label", SRC_CTX[1]), op_srcpage("a:name", SRC_CTX[2]), op_srcpage("label", SRC_CTX[2]),
+            op_srcpage("h:q/r", SRC_CTX[1]), op_compact("http://a.example/x#q/r"), op_dump()]),
         # URI shapes
         mk([op_compact(x) for x in ODD_URIS] + [op_compact(n + l) for n, l in zip(NS_POOL, LOCALS)]
            + [op_restart()] + [op_compact(n + l) for n, l in zip(NS_POOL, LOCALS)] + [op_expand("ns3:"), op_expand("nocolon"),
@@ -207,8 +232,14 @@ def rand_case(rng, nops, flavour):
                 ops.append(op_namespaces())
             else:
                 ops.append(op_page(rng.choice(pages), rng.chance(1, 3)))
+        elif r < 12 and rng.chance(1, 3):
+            u = rng.choice(NS_POOL + [HASH_SLASH[:-1]]) + rng.choice(LOCALS + ["q/r", "1"])
+            if rng.chance(1, 2) and has_path(u):
+                ops.append(op_tcompact(u))
+            else:
+                ops.append(op_srcpage(rng.choice(SRC_KEYS), rng.choice(SRC_CTX)))
         elif r < 12:
-            ops.append(op_compact(rng.choice(NS_POOL) + rng.choice(LOCALS)))
+            ops.append(op_compact(rng.choice(NS_POOL + [HASH_SLASH[:-1]]) + rng.choice(LOCALS + ["q/r", "1"])))
         elif r < 15:
             ops.append(op_compact(rng.choice(ODD_URIS)))
         elif r < 19:
@@ -370,6 +401,10 @@ def op_term(op, c=None):
         return "HNs (NExpand %s)" % s2l(op["s"])
     if k == "getprefix":
         return "HNs (NGetPrefix %s)" % s2l(op["s"])
+    if k == "tcompact":
+        return "HNs (NCompact %s)" % s2l(op["s"])
+    if k == "srcpage":
+        return "HNs (NNsId %s %s)" % (s2l(op["s"]), ss(sorted((op.get("locals") or {}).items())))
     if k == "fetch":
         return "HNs NFetch"
     if k == "namespaces":
@@ -469,7 +504,7 @@ def tags(c, o):
     if c.get("conc"):
         return [("burst=" if c["conc"].get("rounds") else "concurrent=") + (o.get("conc") or "?")]
     kinds = [op["op"] for op in c["ops"]]
-    for k in ("restart", "ctxtxn", "read", "batch", "compact", "nsid", "page", "jsonld", "namespaces"):
+    for k in ("restart", "ctxtxn", "read", "batch", "compact", "nsid", "page", "jsonld", "namespaces", "tcompact", "srcpage"):
         if k in kinds:
             t.append("has-" + k)
     if any(op["op"] == "restart" and op.get("crash") for op in c["ops"]):
